@@ -124,6 +124,34 @@ Theorem C07_distinct_nodup : forall l,
 Proof. intro l. exact (conj (pa_distinct_nodup l) (pa_distinct_incl l)). Qed.
 Print Assumptions C07_distinct_nodup.
 
+(* DISTINCT removes duplicates ONLY: every row of the batch is still represented by a kept row with the
+   same serialisation *)
+Theorem C07_distinct_complete : forall l r, In r l ->
+  exists s, In s (pa_distinct l) /\ pa_row_eqb s r = true.
+Proof. exact pa_distinct_complete. Qed.
+Print Assumptions C07_distinct_complete.
+
+(* values of different Go types (number / string / NULL / bool) are different values whatever they
+   print as - 7 and "7", true and "true", NULL and "<nil>" -, rows that carry them in one column have
+   different serialisations, and DISTINCT keeps a row that differs from every other row of the batch
+   in the type of some value *)
+Theorem C07_distinct_typed : forall l r,
+  In r l ->
+  (forall r', In r' l -> r' = r \/ exists c v w, pa_lookup c r' = Some v /\ pa_lookup c r = Some w
+                                   /\ pa_val_kind v <> pa_val_kind w) ->
+  In r (pa_distinct l).
+Proof. exact pa_distinct_keeps_typed. Qed.
+Print Assumptions C07_distinct_typed.
+
+Example C07_distinct_typed_example :
+  let row v := [(PaGroup 0, v); (PaItem 0, PaNum (1 # 1))] in
+  pa_distinct [row (PaNum (7 # 1)); row (PaStr [55%N]); row (PaBool true); row (PaStr [116; 114; 117; 101]%N);
+               row (PaNum (14 # 2)); row (PaStr [55%N])]
+  = [row (PaNum (7 # 1)); row (PaStr [55%N]); row (PaBool true); row (PaStr [116; 114; 117; 101]%N)]
+  /\ pa_order_string (PaNum (7 # 1)) = pa_order_string (PaStr [55%N])
+  /\ pa_order_string (PaBool true) = pa_order_string (PaStr [116; 114; 117; 101]%N).
+Proof. vm_compute. repeat split. Qed.
+
 (* every column of every delivered row is a GROUP BY column or a SELECT item: hidden HAVING helpers and
    post-aggregation placeholders never appear *)
 Theorem C07_no_hidden_columns : forall q order input r c v,
